@@ -256,6 +256,14 @@ void run_case(Tape& t, Ctx& ctx) {
         VF_CHECK(close(dg[i][j], want), with_combo ? "distance_combination" : "distance",
                  pn << " distance(" << ops[i].name << "," << ops[j].name << ") = " << dg[i][j] << " expected " << double(want));
       }
+    if (p == 0) {
+      // not asserted: the friend compute_distance_of_landscapes(first, second, p) is documented \private and its own
+      // "p == infinity" branch (maximum of level 0 of |first - second| only) is unreachable through distance(), which
+      // diverts p >= DBL_MAX to compute_max_norm_distance_of_landscapes. Only measured.
+      double priv = compute_distance_of_landscapes(*ops[0].g, *ops[2].g, kInf);
+      ctx.hit(close(priv, rl::distance(*ops[0].f, *ops[2].f, 0, 1)) ? "private_lp_routine_with_p=max:agrees_with_sup"
+                                                                      : "private_lp_routine_with_p=max:differs_from_sup");
+    }
     for (int i = 0; i < 3; ++i) {
       VF_CHECK(std::fabs(dg[i][i]) <= 1e-9, "distance_self", pn << " distance(" << ops[i].name << "," << ops[i].name << ") = " << dg[i][i]);
       for (int j = 0; j < 3; ++j) {
